@@ -344,7 +344,7 @@ def schedules(ctx):
         times = {b for s, _ in seqs for a, b, c in s}
         uncond = times if uncond is None else (uncond & times)
     seen_any = any(s for seqs in table.values() for s, _ in seqs)
-    unread = any(b is None for seqs in table.values() for s, _ in seqs for a, b, c in s)
+    unread = any(b is None or a == '?' for seqs in table.values() for s, _ in seqs for a, b, c in s)
     inexact = [(a, b[1]) for seqs in table.values() for s, _ in seqs for a, b, c in s if isinstance(b, tuple) and b and b[0] == 'inexact']
     if inexact:
         ctx.violation('C13.S4', 'the schedule times 14:30 and 21:00 are events the clock emits unconditionally', None,
